@@ -56,7 +56,7 @@ try:
             det[c]["replay_head"] = head
         print(c, rc, lines[:3])
 finally:
-    sh("git checkout -- .", cwd="/repo")
+    sh("git checkout -- . ; git clean -fdq src tests", cwd="/repo")
 d = os.path.join("/verif/seeded", sid)
 os.makedirs(d, exist_ok=True)
 shutil.copy(os.path.join(mdir, "patch.diff"), os.path.join(d, "patch.diff"))
